@@ -152,6 +152,9 @@ func checkC05(p *Prog, c *Check) {
 	c.extra["bounds_obligations"] = st.obligations
 	c.extra["bounds_lifted"] = st.lifted
 	c.Floor("C05-BOUNDS.obligations", st.obligations, 60)
+	// a validator or handler that returns with a mutex held stalls the node as surely as a panic stops it
+	nl := lockPairing(p, c, "C05-LOCK", opts.scope)
+	c.Floor("C05-LOCK", nl, 2)
 	// backing rule of the advanceTxPointer entry: stores to DecryptionKeys.Extra in the gnosis keyper
 	if dk, err := p.Named("p2pmsg.DecryptionKeys"); c.Must(err) {
 		n := 0
